@@ -309,16 +309,21 @@ def run_tlc(module, cfg, workdir=None, workers=16, dump=False, extra=(), env=Non
             res.violations.append((m.group(1), st, m.group(2)))
         # non-initial invariant violations: name followed by behaviour
         for m in _RE_INV.finditer(out):
-            tail = out[m.end():m.end() + 20000]
-            states = re.split(r"^State \d+: .*$", tail.split("\nError:")[0], flags=re.M)[1:]
+            tail = out[m.end():]
+            k = tail.find("The behavior up to this point is:")
+            if k < 0 or k > 200:
+                res.violations.append((m.group(1), None, tail[:2000]))
+                continue
+            body = tail[k:]
+            stop = re.search(r"^(Error:|Progress\(|\d+ states generated|Finished )", body, flags=re.M)
+            body = body[:stop.start()] if stop else body
             beh = []
-            for s in states:
-                s = s.split("\n\n")[0]
+            for s in re.split(r"^State \d+: .*$", body, flags=re.M)[1:]:
                 try:
                     beh.append(parse_state(s))
                 except Exception:
                     beh.append(None)
-            res.violations.append((m.group(1), beh, tail[:4000]))
+            res.violations.append((m.group(1), beh, body[:4000]))
         for m in _RE_ACTPROP.finditer(out):
             res.violations.append((m.group(1), None, out[m.end():m.end() + 4000]))
         res.printed = re.findall(r"^(<<.*>>|\".*\")$", out, flags=re.M)
